@@ -50,6 +50,7 @@ def main() -> int:
     ap.add_argument("--only", default="")
     ap.add_argument("--jobs", type=int, default=16)
     ap.add_argument("--json", default="")
+    ap.add_argument("--props", default="", help="with --all: only these properties (comma separated) - re-run of matrix columns")
     args = ap.parse_args()
     cat = [m for m in selftest.load_catalogue() if args.only in m["id"]]
     ids = [m["id"] for m in cat]
@@ -66,6 +67,8 @@ def main() -> int:
     pairs = []
     for m in cat:
         props = PROPS if (args.all or m["kind"] == "preserve") else m["props"]
+        if args.props:
+            props = [p_ for p_ in props if p_ in args.props.split(",")]
         for p in props:
             pairs.append((m, p))
     res = selftest.run_matrix(pairs, jobs=args.jobs)
